@@ -218,6 +218,13 @@ def run(tier: str, rng: random.Random, proof_ok: bool) -> dict:
         cases.append(std_case(v, ("VDict", [P(k, G.S("bad")) for k in keys]), "sync", tag="builtin"))
         cases.append(std_case(v, ("VDict", [P(keys[0], G.S("bad")), P(keys[1], G.I(1))]), "sync", tag="builtin"))
         cases.append(std_case(("MapV", ("AlwaysValid",), KI, [], [], None), ("VDict", [P(k, G.S("bad")) for k in keys]), "sync", tag="builtin"))
+    # choice sets whose members cannot be ordered against each other (the message lists the members)
+    for kind, members, bad in ((("KInt",), [G.I(1), G.S("a")], G.I(5)), (("KStr",), [G.S("a"), G.NONE], G.S("zz")),
+                               (("KStr",), [G.S("a"), G.B(b"a"), G.I(0)], G.S("zz")), (("KInt",), [G.I(2), G.NONE, G.S("")], G.I(5))):
+        cv = ("Scalar", kind, None, [], [("PChoices", members)], [])
+        cases.append(std_case(cv, bad, "sync", tag="builtin"))
+        cases.append(std_case(("ListV", cv, [], [], None), ("VList", [bad, bad]), "sync", tag="builtin"))
+        cases.append(std_case(("DictAnyV", [P(G.S("k"), cv)], None, None, False), ("VDict", [P(G.S("k"), bad)]), "sync", tag="builtin"))
     for c in cases:
         try:
             observe(c)
